@@ -123,6 +123,23 @@ def gen_jobs(rng, per_family):
             else:
                 toks = tokens_of(case, set())
                 names = renaming(rng, toks, avoid=XARRAY_RESERVED if fam in ("c03", "c04", "c05") else ())
+                axtoks = sorted(t for t in toks if t.startswith("a"))
+                intcase = fam == "c10" and case.get("ev") in ("Integrate", "Average") and len(case["args"]["axis"]) == 1
+                if len(axtoks) >= 2 and rng.random() < (0.8 if intcase else 0.3):
+                    # axis names contained in one another (a plain-string axis argument must still mean that one axis)
+                    sub = rng.choice([("x", "xi"), ("dep", "depth"), ("t", "outer_t"), ("lon", "lonG"), ("a", "aa"), ("X", "XC")])
+                    if not (set(sub) & (set(names.values()) - {names[t] for t in axtoks})):
+                        pair = rng.sample(axtoks, 2)
+                        if fam == "c10" and case.get("ev") in ("Integrate", "Average") and len(case["args"]["axis"]) == 1:
+                            # the operated axis gets the longer name and is named by a plain string
+                            op_ax = case["args"]["axis"][0]
+                            others = [t for t in axtoks if t != op_ax]
+                            pair = [rng.choice(others), op_ax]
+                            case["args"]["axis_as_str"] = True
+                        for t in axtoks:
+                            if t not in pair and names[t] in sub:
+                                names[t] = "ax_" + t
+                        names[pair[0]], names[pair[1]] = sub
                 if fam == "c11":
                     used = set(names.values())
                     dm = rng.sample([n for n in POOL if n not in used], 3)
@@ -197,7 +214,8 @@ def run(ctx):
         c["user_coords"] = False
         # rename every dimension (and COMODO axis) through the pool; SGRID cell / node names may contain one another
         dims = sorted(tokens_of(c["desc"], set()) | {x[f] for x in c["desc"]["sgrid"] for f in ("cell", "node")})
-        names = dict(zip(dims, rng.sample(POOL, len(dims))))
+        # (the words of the SGRID attribute grammar itself are dimension names like any other)
+        names = dict(zip(dims, rng.sample(POOL + ["padding", "low", "high", "both", "none", "face", "node"], len(dims))))
         if c["desc"]["sgrid"] and rng.random() < 0.5:
             a0 = c["desc"]["sgrid"][0]
             names[a0["node"]] = rng.choice(["xn", "x", "n1"])
